@@ -4,6 +4,7 @@ package main
 //   run-corpus   pinned inputs (one per known/suspected panic mechanism) — always executed first
 //   run-seed     every schema of the repo's testdata, unchanged, under random outputs/flags
 //   run-mut      grammar-aware / text / byte mutations of those schemas
+//   cuegen       CUE texts drawn from the grammar (c04_cuegen.go): every label / value form in every position
 //   ir           generated IR (well-formed and malformed) through passes / chains / FromAST / contexts
 //   passes-yaml  generated compiler-pass documents on generated IR (c04_cfggen.go)
 //   veneers-yaml generated veneer documents on generated IR (c04_cfggen.go)
